@@ -358,4 +358,158 @@ theorem checkDims_frame (tp : TreePath) (args : Args) : ∀ (l : List (Dim × Na
     rename_i a b
     exact DimRel.weaken h1.2 (checkDims_frame tp args rest a b h1.1)
 
+/-- outcome of two `_check_shape` walks over memos that agree on the visible keys -/
+def ShapeRel (tp : TreePath) (σ₁ : Single) (ν₁ : Variadic) :
+    Walk (Single × Variadic) → Walk (Single × Variadic) → Prop
+  | .ok a, .ok b => (Agree tp a.1 b.1 ∧ Agree tp a.2 b.2) ∧ (Keeps tp σ₁ a.1 ∧ Keeps tp ν₁ a.2)
+  | .fail, .fail => True
+  | .annErr, .annErr => True
+  | .exc e₁ _, .exc e₂ _ => e₁ = e₂
+  | _, _ => False
+
+theorem checkShape_frame_rel (tp : TreePath) (args : Args) (sh : Shape) (shape : List Nat)
+    (σ₁ σ₂ : Single) (ν₁ ν₂ : Variadic) (hσ : Agree tp σ₁ σ₂) (hν : Agree tp ν₁ ν₂) :
+    ShapeRel tp σ₁ ν₁ (checkShape tp args sh shape σ₁ ν₁) (checkShape tp args sh shape σ₂ ν₂) := by
+  unfold checkShape
+  cases hv : sh.var with
+  | none =>
+    dsimp only
+    split
+    · trivial
+    · have h1 := checkDims_frame tp args (sh.pre.zip shape) σ₁ σ₂ hσ
+      generalize checkDims tp args σ₁ (sh.pre.zip shape) = w₁ at h1
+      generalize checkDims tp args σ₂ (sh.pre.zip shape) = w₂ at h1
+      cases w₁ <;> cases w₂ <;> first | exact h1.elim | exact h1 | skip
+      exact ⟨⟨h1.1, hν⟩, ⟨h1.2, Keeps.refl tp ν₁⟩⟩
+  | some vs =>
+    obtain ⟨v, suf⟩ := vs
+    dsimp only
+    split
+    · trivial
+    · have h1 := checkDims_frame tp args (sh.pre.zip (shape.take sh.pre.length)) σ₁ σ₂ hσ
+      generalize checkDims tp args σ₁ (sh.pre.zip (shape.take sh.pre.length)) = w₁ at h1
+      generalize checkDims tp args σ₂ (sh.pre.zip (shape.take sh.pre.length)) = w₂ at h1
+      cases w₁ <;> cases w₂ <;> first | exact h1.elim | exact h1 | skip
+      rename_i a b
+      dsimp only
+      have h2 := checkDims_frame tp args (suf.zip (shape.drop (shape.length - suf.length))) a b h1.1
+      generalize checkDims tp args a (suf.zip (shape.drop (shape.length - suf.length))) = u₁ at h2
+      generalize checkDims tp args b (suf.zip (shape.drop (shape.length - suf.length))) = u₂ at h2
+      cases u₁ <;> cases u₂ <;> first | exact h2.elim | exact h2 | skip
+      rename_i c d
+      dsimp only
+      have hk : Keeps tp σ₁ c := h1.2.trans h2.2
+      cases v with
+      | anonVar => exact ⟨⟨h2.1, hν⟩, ⟨hk, Keeps.refl tp ν₁⟩⟩
+      | namedVar x bb isTp =>
+        dsimp only
+        rcases keyOf_cases tp x isTp with ⟨key, hkey⟩ | ⟨hkey, _, _⟩
+        · have hrel := keyOf_relevant tp x isTp key hkey
+          rw [hkey]
+          dsimp only
+          rw [hν key hrel]
+          cases vstep (List.lookup key ν₂) bb
+              (List.take (shape.length - sh.pre.length - suf.length) (List.drop sh.pre.length shape)) with
+          | none => trivial
+          | some st =>
+            refine ⟨⟨h2.1, fun k hkr => ?_⟩, ⟨hk, fun k hkr => ?_⟩⟩
+            · rw [lookup_setVar, lookup_setVar, hν k hkr]
+            · have hne : ¬ k = key := fun hkk => hkr (by rw [hkk]; exact hrel)
+              rw [lookup_setVar, if_neg hne]
+        · rw [hkey]
+          trivial
+
+/-- the frame property in the form the property file states it -/
+theorem checkShape_frame (tp : TreePath) (args : Args) (sh : Shape) (shape : List Nat)
+    (σ₁ σ₂ : Single) (ν₁ ν₂ : Variadic)
+    (hσ : ∀ k, Key.relevant tp k → σ₁.lookup k = σ₂.lookup k)
+    (hν : ∀ k, Key.relevant tp k → ν₁.lookup k = ν₂.lookup k) :
+    match checkShape tp args sh shape σ₁ ν₁, checkShape tp args sh shape σ₂ ν₂ with
+    | .ok (σ₁', ν₁'), .ok (σ₂', ν₂') =>
+        (∀ k, Key.relevant tp k → σ₁'.lookup k = σ₂'.lookup k ∧ ν₁'.lookup k = ν₂'.lookup k) ∧
+        (∀ k, ¬ Key.relevant tp k → σ₁'.lookup k = σ₁.lookup k ∧ ν₁'.lookup k = ν₁.lookup k)
+    | .fail, .fail => True
+    | .annErr, .annErr => True
+    | .exc e₁ _, .exc e₂ _ => e₁ = e₂
+    | _, _ => False := by
+  have h := checkShape_frame_rel tp args sh shape σ₁ σ₂ ν₁ ν₂ hσ hν
+  generalize checkShape tp args sh shape σ₁ ν₁ = w₁ at h
+  generalize checkShape tp args sh shape σ₂ ν₂ = w₂ at h
+  cases w₁ <;> cases w₂ <;> first | exact h.elim | exact h | skip
+  rename_i a b
+  obtain ⟨a1, a2⟩ := a
+  obtain ⟨b1, b2⟩ := b
+  exact ⟨fun k hk => ⟨h.1.1 k hk, h.1.2 k hk⟩, fun k hk => ⟨h.2.1 k hk, h.2.2 k hk⟩⟩
+
+/-! ### the rendered keys are distinct -/
+
+theorem render_leaf_toList (i : Nat) (t x : String) :
+    (Key.leaf i t x).render.toList =
+      "(Leaf ".toList ++ (Nat.toDigits 10 i ++ (" in structure ".toList ++ (t.toList ++ (") ".toList ++ x.toList)))) := by
+  simp [Key.render, String.toList_append, toString]
+
+/-- cut two lists at the first occurrence of a separator -/
+theorem append_sep_inj {α : Type} (c : α) : ∀ (l₁ l₂ r₁ r₂ : List α), c ∉ l₁ → c ∉ l₂ →
+    l₁ ++ c :: r₁ = l₂ ++ c :: r₂ → l₁ = l₂ ∧ r₁ = r₂
+  | [], [], r₁, r₂, _, _, h => by simpa using h
+  | [], b :: l₂, r₁, r₂, _, h2, h => by
+    simp only [List.nil_append, List.cons_append, List.cons.injEq] at h
+    exact absurd h.1 (fun hc => h2 (by simp [hc]))
+  | a :: l₁, [], r₁, r₂, h1, _, h => by
+    simp only [List.nil_append, List.cons_append, List.cons.injEq] at h
+    exact absurd h.1.symm (fun hc => h1 (by simp [hc]))
+  | a :: l₁, b :: l₂, r₁, r₂, h1, h2, h => by
+    simp only [List.cons_append, List.cons.injEq] at h
+    have := append_sep_inj c l₁ l₂ r₁ r₂ (fun hc => h1 (by simp [hc])) (fun hc => h2 (by simp [hc])) h.2
+    exact ⟨by rw [h.1, this.1], this.2⟩
+
+theorem toDigits_inj (i j : Nat) (h : Nat.toDigits 10 i = Nat.toDigits 10 j) : i = j := by
+  have := congrArg (fun l => Nat.ofDigitChars 10 l 0) h
+  simpa using this
+
+theorem space_not_in_toDigits (i : Nat) : ' ' ∉ Nat.toDigits 10 i := fun h => by
+  have := Nat.isDigit_of_mem_toDigits (by decide) (by decide) h
+  exact absurd this (by decide)
+
+theorem ident_head (x : String) (h : x = "" ∨ isIdentStr x = true) : ∀ r, x.toList ≠ '(' :: r := by
+  intro r hx
+  rcases h with rfl | h
+  · simp at hx
+  · unfold isIdentStr at h
+    rw [hx] at h
+    simp [isIdentifier, isAlpha] at h
+
+theorem render_injective (k₁ k₂ : Key) (h₁ : k₁.WellFormed) (h₂ : k₂.WellFormed)
+    (h : k₁.render = k₂.render) : k₁ = k₂ := by
+  cases k₁ with
+  | plain x =>
+    cases k₂ with
+    | plain y => simpa [Key.render] using h
+    | leaf j u y =>
+      exfalso
+      have hl := congrArg String.toList h
+      rw [render_leaf_toList] at hl
+      exact ident_head x h₁ _ (by simpa [Key.render] using hl)
+  | leaf i t x =>
+    cases k₂ with
+    | plain y =>
+      exfalso
+      have hl := congrArg String.toList h
+      rw [render_leaf_toList] at hl
+      exact ident_head y h₂ _ (by simpa [Key.render] using hl.symm)
+    | leaf j u y =>
+      have hl := congrArg String.toList h
+      rw [render_leaf_toList, render_leaf_toList] at hl
+      have hl := List.append_cancel_left hl
+      have e1 : " in structure ".toList = ' ' :: "in structure ".toList := by decide
+      rw [e1] at hl
+      obtain ⟨hd, hr⟩ := append_sep_inj ' ' _ _ _ _ (space_not_in_toDigits i) (space_not_in_toDigits j) hl
+      have hij := toDigits_inj i j hd
+      have hr := List.append_cancel_left hr
+      have e2 : ") ".toList = ')' :: " ".toList := by decide
+      rw [e2] at hr
+      obtain ⟨ht, hx⟩ := append_sep_inj ')' _ _ _ _ h₁.2 h₂.2 hr
+      have hx := List.append_cancel_left hx
+      rw [hij, String.toList_inj.mp ht, String.toList_inj.mp hx]
+
 end JV
